@@ -295,6 +295,40 @@ theorem padded_single_subscript_error (n m : Nat) (a : FSub) (h : Bad n a) :
 
 example : Bad 2 (.idx (.lit 3)) := Or.inr ⟨[3], rfl, 3, by simp, by decide⟩
 
+/-- References through components (`d.v[…]`, `c[…].v[…]`, any depth): more subscripts on one part of the name
+    than that part has dimensions — in particular any subscript on a scalar part — makes generation raise,
+    whatever the other parts hold and whatever the values of the subscripts are. -/
+theorem too_many_subscripts_at_a_level_error (cfg : Cfg) (pre post : List Level) (l : Level)
+    (h : l.dims.length < l.subs.length) (loop : Option LoopRange) :
+    outcomeNested cfg (pre ++ l :: post) loop = none := by
+  have hl : padLevel l = none := by simp [padLevel, h]
+  have : padLevels (pre ++ l :: post) = none := by
+    induction pre with
+    | nil => simp [padLevels, hl]
+    | cons p ps ih =>
+      simp only [List.cons_append, padLevels, ih]
+      cases padLevel p <;> rfl
+  simp [outcomeNested, this]
+
+example : (⟨[3], [.fixed (.idx (.lit 2)), .fixed (.idx (.lit 5))]⟩ : Level).dims.length
+    < (⟨[3], [.fixed (.idx (.lit 2)), .fixed (.idx (.lit 5))]⟩ : Level).subs.length := by decide
+
+/-- A reference `c[a].v[b]` (one dimension on each of two parts) is the 2-D reference `x[a, b]` on the
+    flattened symbol, so `eq_2d_sound` / `eq_2d_error` apply to it. -/
+theorem nested_two_parts_is_2d (cfg : Cfg) (n m : Nat) (a b : FSub) (loop : Option LoopRange) :
+    outcomeNested cfg [⟨[n], [.fixed a]⟩, ⟨[m], [.fixed b]⟩] loop = outcome cfg ⟨.d2 n m, .ff a b, loop⟩ := by
+  simp [outcomeNested, padLevels, padLevel, pairsToCase]
+
+/-- …and `d.v[b]` on a scalar component is the 1-D reference `x[b]`. -/
+theorem nested_scalar_component_is_1d (cfg : Cfg) (m : Nat) (b : FSub) (loop : Option LoopRange) :
+    outcomeNested cfg [⟨[], []⟩, ⟨[m], [.fixed b]⟩] loop = outcome cfg ⟨.d1 m, .f1 b, loop⟩ := by
+  simp [outcomeNested, padLevels, padLevel, pairsToCase]
+
+example : outcomeNested Cfg.checked [⟨[2], [.fixed (.idx (.lit 1))]⟩, ⟨[3], [.fixed (.idx (.lit 2))]⟩] none
+    = some [[(0, 1)]] := by decide
+example : outcomeNested Cfg.checked [⟨[], []⟩, ⟨[3], [.fixed (.idx (.lit 2)), .fixed (.idx (.lit 5))]⟩] none = none := by
+  decide
+
 /-- A subscript on a scalar always makes generation raise. -/
 theorem scalar_subscript_error (cfg : Cfg) (s : Subs) (l : Option LoopRange) :
     outcome cfg ⟨.scalar, s, l⟩ = none := by
